@@ -342,27 +342,30 @@ def compare(case, res, steps, reps):
 
 
 def oracle(case, res):
-    """[(clause, detail)] in order of severity"""
-    bad = []
+    """[(clause, detail)]: the Python statement of the property (cross-check of the Lean checker; same
+    order of clauses: the first offending log line, then progress, returned, metadata)"""
     log, pop = res["log"], case["pop"]
-    if res["error"] is not None:
-        bad.append(("progress", f"{res['where']} raised {res['error']}"))
     running = {}  # job -> recv
     recv_of, closed_over = {}, set()
     n = 0
+    ev_bad = []
     for e in log:
+        if ev_bad:
+            break
         if e[0] == "submit":
             n += e[1]
         elif e[0] in ("start", "end") and e[1] in closed_over:
             continue  # a call of an evaluation that close() had already ended (see extract_steps)
         elif e[0] == "start":
             j, recv = e[1], e[2]
-            recv_of[j] = recv
             if recv is None or len(recv) != pop:
-                bad.append(("count", f"job {j} received {recv}, queue_pop_per_task={pop}"))
+                ev_bad.append(("count", f"job {j} received {recv}, queue_pop_per_task={pop}"))
+                break
             for k, other in running.items():
-                if recv is not None and other is not None and set(recv) & set(other):
-                    bad.append(("exclusive", f"jobs {k} and {j} run at the same time with resources {other} and {recv}"))
+                if set(recv) & set(other):
+                    ev_bad.append(("exclusive", f"jobs {k} and {j} run at the same time with resources {other} and {recv}"))
+                    break
+            recv_of[j] = recv
             running[j] = recv
         elif e[0] == "end":
             running.pop(e[1], None)
@@ -372,19 +375,39 @@ def oracle(case, res):
             running.clear()
             closed_over = set(range(n))
             if sorted(e[1]) != sorted(case["queue"]):
-                bad.append(("returned", f"queue after close() {e[1]}, initially {case['queue']}"))
-    for j, m in sorted(res["metas"].items()):
-        if m is not None and j in recv_of and _parse_meta(m) != recv_of[j]:
-            bad.append(("metadata", f"job {j}: metadata dequed={m!r} but the run-function received {recv_of[j]}"))
-    if res["error"] is None:
+                ev_bad.append(("returned", f"queue after close() {e[1]}, initially {case['queue']}"))
+    if ev_bad:
+        return ev_bad
+    bad = []
+    if res["error"] is not None:
+        bad.append(("progress", f"{res['where']} raised {res['error']}"))
+    else:
         missing = sorted(set(range(res["nsub"])) - set(res["returned"]) - closed_over)
         if missing or len(res["returned"]) != len(set(res["returned"])):
             bad.append(("progress", f"jobs {missing} never returned (returned {res['returned']}, ended by a close {sorted(closed_over)})"))
-        elif sorted(res["final_queue"]) != sorted(case["queue"]):
-            bad.append(("returned", f"queue at the end {res['final_queue']}, initially {case['queue']}"))
-    order = {"progress": 1, "exclusive": 0, "count": 2, "metadata": 3, "returned": 4}
-    bad.sort(key=lambda b: order[b[0]])
+    if sorted(res["final_queue"] or []) != sorted(case["queue"]):
+        bad.append(("returned", f"queue at the end {res['final_queue']}, initially {case['queue']}"))
+    for j, m in sorted(res["metas"].items()):
+        if m is not None and j in recv_of and _parse_meta(m) != recv_of[j]:
+            bad.append(("metadata", f"job {j}: metadata dequed={m!r} but the run-function received {recv_of[j]}"))
     return bad
+
+
+def lean_log(case, res):
+    """the observable log in the wire form of `Model/QueuedLog.lean`"""
+    evs = []
+    for e in res["log"]:
+        if e[0] == "submit":
+            evs.append({"e": "submit", "n": e[1]})
+        elif e[0] == "start":
+            evs.append({"e": "start", "j": e[1], "recv": e[2]})
+        elif e[0] == "end":
+            evs.append({"e": "end", "j": e[1]})
+        elif e[0] == "closed":
+            evs.append({"e": "closed", "queue": e[1]})
+    metas = [_parse_meta(res["metas"].get(j)) for j in range(res["nsub"])]
+    return {"op": "check", "queue": case["queue"], "pop": case["pop"], "events": evs, "metas": metas,
+            "returned": res["returned"], "final_queue": res["final_queue"] or [], "error": res["error"] is not None}
 
 
 def _has_close(case):
@@ -607,23 +630,35 @@ def check_case(ck, d, case, vt, from_corpus=False):
     ck.case({k: case[k] for k in ("backend", "queue", "pop", "workers", "waves")}, nontrivial=total >= 2 and conc >= 1)
     order = tuple(e[1] for e in res["log"] if e[0] == "end")
     ck.extra_cov.setdefault("_orders", set()).add((case["backend"], total, order))
+    # L3: the verified checker (theorem C17_checker) on the implementation's log; the Python statement of
+    # the property is kept as a cross-check
     bad = oracle(case, res)
-    if bad:
-        clause, detail = bad[0]
+    oracle_mm = None
+    if res["where"] == "constructor":
+        lean = {"spec": False, "clause": "progress"}
+    else:
+        lean = d.ask(lean_log(case, res))
+    if lean["spec"] != (not bad):
+        oracle_mm = {"what": "oracle disagreement: Lean checkLog vs. the Python statement of the property",
+                     "lean": lean, "python": bad}
+    if not lean["spec"]:
+        clause = lean["clause"]
+        detail = next((b[1] for b in bad if b[0] == clause), f"checkLog = false (clause {clause})")
         small = case
         seen = ck.extra_cov.setdefault("_shrunk", {})
         seen[clause] = seen.get(clause, 0) + 1
         # shrink the first few failing scenarios of every clause (thread backend: the first one)
-        if not from_corpus and seen[clause] <= (8 if case["backend"] == "serial" else 1):
+        if not from_corpus and bad and bad[0][0] == clause and seen[clause] <= (8 if case["backend"] == "serial" else 1):
             use_vt = vt if case["backend"] == "serial" else None
-            small = shrink(case, use_vt, clause)
-            ok, (res2, bad2) = _same(small, use_vt, clause)
-            if ok:
-                clause, detail = bad2[0]
-            else:
-                small = case
+            cand = shrink(case, use_vt, clause)
+            res2 = drive(cand, use_vt)
+            lean2 = d.ask(lean_log(cand, res2)) if res2["where"] != "constructor" else {"spec": True}
+            if not lean2["spec"] and lean2["clause"] == clause:
+                small = cand
+                detail = next((b[1] for b in oracle(cand, res2) if b[0] == clause), detail)
         fp = fingerprint(small, clause, vt)
-        ck.fail(fp, f"{clause}: {detail}", small, {"clause": clause, "detail": detail, "all": sorted({b[0] for b in bad})})
+        ck.fail(fp, f"{clause}: {detail}", small, {"clause": clause, "detail": detail, "oracle": "Lean checkLog (C17_checker)",
+                                                   "python_clauses": sorted({b[0] for b in bad})})
     mm = None
     if res["error"] is None:
         ex, why = extract_steps(case, res)
@@ -648,6 +683,8 @@ def check_case(ck, d, case, vt, from_corpus=False):
         mm = {"what": "the implementation raised: " + res["error"]}
     if mm is not None:
         ck.mismatch(case, mm)
+    if oracle_mm is not None:
+        ck.mismatch(case, oracle_mm)
     return bad, mm
 
 
